@@ -38,6 +38,7 @@ def run(ctx, rep, tier):
     rep.rule("G15", "cellWidth_ writes edge-dominated by the movable test on the same index", 2)
     rep.rule("SK", "binary searches over the congestion regions use the key the regions are sorted by", 1)
     rep.rule("NN", "no movable cell is made narrower: stored width >= old width, proved from the dominating guards", 2)
+    rep.rule("PV", "the available area is computed on the obstruction-free rows (computeRows), not on the raw rows", 1)
     rep.rule("RM", "the scanned region list is only grown or permuted, never pruned", 1)
     rep.rule("DS", "derived state on the expansion path is invalidated by every writer of its inputs", 1)
     rep.rule("G16", "computeCellExpansion: const, one factor per cell, 1 for fixed cells, running max from 1 otherwise", 3)
@@ -99,6 +100,9 @@ def run(ctx, rep, tier):
         rep.unknown("DS", None, None, "const functions on the expansion path", "none found (shape changed)")
     elif not any(i.get("rule") == "DS" for i in getattr(rep, "instances", [])):
         rep.holds("DS", "-", None, "%d const functions reachable from the expansion entry points keep no derived state" % nds)
+    # ---- PV (shared with C15) ----
+    from .c15 import check_pv
+    check_pv(ctx, rep, "PV", only=("Circuit::computeRowPlacementArea",))
     # ---- RM ----
     check_region_list(ctx, rep, prog.func1(CQ + "Circuit::computeCellExpansion"))
     # ---- SK ----
@@ -214,6 +218,20 @@ def check_region_list(ctx, rep, f):
                             conts[info["hi"][2][1]] = info["hi"][2]
                         break
                     p = p.get("_p")
+    # the scan must visit every region: an early exit needs an ordering argument that a sort by (minX, minY) does not give
+    for x in walk(f.body):
+        if x.get("kind") == "CXXMemberCallExpr" and callee_info(x) and callee_info(x)["name"] == "intersects":
+            p = x.get("_p")
+            while p is not None and p is not f.body and p.get("kind") not in ("CXXForRangeStmt", "ForStmt"):
+                p = p.get("_p")
+            if p is not None and p is not f.body:
+                body = [c_ for c_ in inner(p) if isinstance(c_, dict) and c_.get("kind")][-1]
+                ee = loop_has_early_exit(body)
+                if ee is not None:
+                    rep.violation("RM", ee, f, "the per-cell scan of the congested regions stops early",
+                                  "the regions are ordered by (minX, minY): the ones a cell intersects are not contiguous in that order, so a region with "
+                                  "a larger factor can come after the point where the scan stops", key="%s|region scan stops early" % f.short)
+                break
     if not conts:
         # a binary-search based scan: the container handed to the search
         for x in walk(f.body):
